@@ -99,6 +99,8 @@ structure St (ρ : Type) where
   rng : ρ
   /-- set when a construct outside the modelled domain was met -/
   outside : Bool := false
+  /-- document-wide count of passes over pending tags that completed none of them -/
+  idlePasses : Nat := 0
 
 variable {ρ : Type}
 
@@ -154,7 +156,7 @@ def evalAttributes (ev : Evalr ρ) (st : St ρ) (e : Elem) : Except Err (Elem ×
     (e1.classes, rng)
   pure ({ e1 with classes := cls }, rng)
 
-/-- `update_element`: register under the evaluated id; the first registration is also the original -/
+/-- `update_element`: register under the evaluated id; the first form seen of an id is its original -/
 def updateElement (ev : Evalr ρ) (st : St ρ) (e : Elem) : St ρ :=
   match e.getAttr cs!"id" with
   | none => st
@@ -162,9 +164,21 @@ def updateElement (ev : Evalr ρ) (st : St ρ) (e : Elem) : St ρ :=
     let i := match ev.evalAttr st.lookup st.rng i with
       | .ok (v, _) => v
       | .error _ => i
-    let known := (Attrs.lookupTable st.geo.elems i).isSome
+    let known := (Attrs.lookupTable st.originals i).isSome
     { st with geo := { st.geo with elems := (i, e) :: st.geo.elems.filter (fun kv => kv.1 != i) },
               originals := if known then st.originals else (i, e) :: st.originals }
+
+/-- `register_original`: the as-written form becomes the reuse template; the element is NOT made
+    available to geometry references (those only ever see resolved elements) -/
+def registerOriginal (ev : Evalr ρ) (st : St ρ) (e : Elem) : St ρ :=
+  match e.getAttr cs!"id" with
+  | none => st
+  | some i =>
+    let i := match ev.evalAttr st.lookup st.rng i with
+      | .ok (v, _) => v
+      | .error _ => i
+    let known := (Attrs.lookupTable st.originals i).isSome
+    { st with originals := if known then st.originals else (i, e) :: st.originals }
 
 def setPrev (st : St ρ) (e : Elem) : St ρ := { st with geo := { st.geo with prev := some e } }
 
@@ -447,7 +461,7 @@ def clipPost (ev : Evalr ρ) (e : Elem) (x : St ρ × Res) : St ρ × Res :=
 
 def registerEarly (ev : Evalr ρ) (st : St ρ) (n : Node) : St ρ :=
   match tagElem n with
-  | some e => updateElement ev st e
+  | some e => registerOriginal ev st e
   | none => st
 
 mutual
@@ -628,9 +642,15 @@ def retry (ev : Evalr ρ) : Nat → St ρ → List Tag → List (Nat × List Ev)
   | 0, st, _, _, _ => (st, .error .fuel)
   | _ + 1, st, [], outs, bb => (st, .ok (outs, bb))
   | fuel + 1, st, t :: ts, outs, bb =>
-    seq (onePass ev fuel st (t :: ts) outs bb []) fun st r =>
-      if r.2.2.length == (t :: ts).length then (st, .error (.multi (r.2.2.map (·.idx))))
-      else retry ev fuel st r.2.2 r.1 r.2.1
+    seq (onePass ev fuel st (t :: ts) outs bb []) fun st' r =>
+      if r.2.2.length == (t :: ts).length then
+        -- no tag completed: elements newly resolved inside a failing container still count as
+        -- progress, a bounded number of times (`allow_idle_pass`)
+        if st'.geo.elems.length == st.geo.elems.length then (st', .error (.multi (r.2.2.map (·.idx))))
+        else if st'.idlePasses + 1 > st'.cfg.loopLimit then
+          ({ st' with idlePasses := st'.idlePasses + 1 }, .error (.multi (r.2.2.map (·.idx))))
+        else retry ev fuel { st' with idlePasses := st'.idlePasses + 1 } r.2.2 r.1 r.2.1
+      else retry ev fuel st' r.2.2 r.1 r.2.1
 
 /-- `process_events` -/
 def processNodes (ev : Evalr ρ) : Nat → St ρ → Nodes → St ρ × Res
